@@ -276,6 +276,15 @@ def cmd_check(check, tier, args):
         with open(os.path.join(VERIF, e["replay"])) as f:
             hsd = json.load(f).get("pythonhashseed") or 0
         reg_jobs.append(({"mode": "replay", "path": os.path.join(VERIF, e["replay"])}, hsd))
+    # ... and the minimised histories on which independently seeded breaking changes were caught (corpus/<check>/<seeded id>.json): clean on a tree
+    # where the property holds, violating again if that kind of change comes back
+    cdir = os.path.join(VERIF, "corpus", check)
+    for fn in sorted(os.listdir(cdir)) if os.path.isdir(cdir) else []:
+        if fn.endswith(".json"):
+            with open(os.path.join(cdir, fn)) as f:
+                hsd = json.load(f).get("pythonhashseed") or 0
+            reg.append({"id": "corpus/" + fn[:-5], "replay": os.path.join("corpus", check, fn)})
+            reg_jobs.append(({"mode": "replay", "path": os.path.join(cdir, fn)}, hsd))
     reg_viol = []
     for e, (r, err) in zip(reg, parallel_jobs(reg_jobs, workers)):
         if r is None:
@@ -344,12 +353,12 @@ def cmd_check(check, tier, args):
         rc = 1
     for e, r in reg_viol:
         print("VIOLATION property=%s replay=%s" % (check, os.path.join(VERIF, e["replay"])))
-        print("  the history of repaired finding %s violates again: %s" % (e["id"], r["violation"]["message"]))
+        print("  the recorded history %s violates (again): %s" % (e["id"], r["violation"]["message"]))
         print("  fingerprint=%s" % r.get("fingerprint"))
         rc = 1
     wall_total = time.time() - t0
     extra = {"violating_runs_in_batch": len(agg["violations"]) + agg["violations_dropped"], "violations_minimised": n_shrunk,
-             "known_finding_hits": known_hits, "regression_replays_of_repaired_findings": len(reg), "regression_replays_violating": len(reg_viol)}
+             "known_finding_hits": known_hits, "regression_replays_of_repaired_findings_and_corpus": len(reg), "regression_replays_violating": len(reg_viol)}
     write_evidence(check, tier, seed, cfg, agg, len(new_viol) + len(reg_viol), extra_cov=extra, wall=wall_total)
     print("runs=%d nontrivial-distinct=%d states=%d ops=%d wall=%.1fs (%.0f runs/h) violating-runs=%d new=%d known=%s truncated=%s" % (
         agg["n"], agg["distinct_nontrivial"], agg["states"], agg["n_ops"], wall_total, agg["n"] / max(wall_total, 1e-9) * 3600,
